@@ -339,6 +339,14 @@ class Harness:
     # -- tasks ------------------------------------------------------------
 
     def spawn(self, coro) -> asyncio.Task:
+        if not asyncio.iscoroutine(coro):
+            aw = coro
+
+            async def _await():
+                return await aw
+
+            coro = _await()
+
         task = self.loop.create_task(coro)
         self.tasks.append(task)
         return task
